@@ -192,8 +192,9 @@ def check_init_consistency(ck, prog, rule, files=None, skip_files=()):
     return n
 
 
-def check_reset_cover(ck, prog, rule, table):
-    """table: [(reset fn, file, record, [init/reset-like functions to ignore as writers], {member: reason})]"""
+def check_reset_cover(ck, prog, rule, table, only=None):
+    """table: [(reset fn, file, record, [init/reset-like functions to ignore as writers], {member: reason})]
+    only: restrict to these member names"""
     n = 0
     for (fn, file, rec, ignore, exceptions) in table:
         f = prog.fn(fn, file)
@@ -208,6 +209,8 @@ def check_reset_cover(ck, prog, rule, table):
             for fld, sites in _coder_var_fields(g, recnames).items():
                 writers.setdefault(fld, set()).add(g.name)
         for fld in sorted(writers):
+            if only is not None and fld[1] not in only:
+                continue
             n += 1
             if fld[1] in exceptions:
                 ck.ob(rule, "%s:%s" % (fn, fld[1]), True, common.where(f),
